@@ -21,8 +21,8 @@ P["C11"]=dict(level="other",
  bounds="<=3 entries with concrete distinct keys (real xxhash values), 1 or 2 cycles, no eviction limits configured, clock in [2^60,2^62] ns, DeleteExpiredAfter in (0,2^60]",
  outside="the janitor's ticker loop; states with UnlimitedTTL, expirationsSet==0 and dated entries (reachable only through ExpireAll/Restore) are not judged",
  assumptions=["sync.Map is modelled as a linearizable map with snapshot Range","map iteration order fixed (insertion order)"],
- quick=dict(harnesses=["verifH_C11_ShardedMap","verifH_C11_SyncMap","verifH_C11_ShardedMapOf"]),
- thorough=dict(harnesses=["verifH_C11_ShardedMap_2cyc","verifH_C11_SyncMap_2cyc","verifH_C11_ShardedMapOf_2cyc"]))
+ quick=dict(harnesses=["verifH_C11_ShardedMap_2cyc","verifH_C11_SyncMap_2cyc","verifH_C11_ShardedMapOf_2cyc"], bounds="<=3 entries, two consecutive cleanup cycles with a later clock"),
+ thorough=dict(harnesses=["verifH_C11_ShardedMap","verifH_C11_SyncMap","verifH_C11_ShardedMapOf","verifH_C11_ShardedMap_2cyc","verifH_C11_SyncMap_2cyc","verifH_C11_ShardedMapOf_2cyc"]))
 
 c07h=["verifH_C07_ShardedMap_keyed","verifH_C07_ShardedMap_batch","verifH_C07_ShardedMap_ls","verifH_C07_SyncMap_keyed","verifH_C07_SyncMap_batch","verifH_C07_ShardedMapOf_keyed","verifH_C07_ShardedMapOf_batch","verifH_C07_ShardedMapOf_ls"]
 P["C07"]=dict(level="other",
@@ -38,7 +38,7 @@ P["C09"]=dict(level="other", technique="bounded symbolic execution (inductive st
  bounds="as C07, ShardedMap and ShardedMapOf[int] (SyncMap is keyed by the full string, see C07); Read/Write/Delete",
  outside="keys longer than 2 bytes; real 64-byte xxhash collisions are subsumed by the arbitrary hash function but not replayed with the real hash",
  assumptions=["xxhash.Sum64 is an uninterpreted function (any hash function)","representation invariant assumed for the pre-state: at most one entry per hash slot"],
- quick=dict(harnesses=["verifH_C09_ShardedMapOf_keyed","verifH_C09_ShardedMapOf_batch","verifH_C09_ShardedMapOf_ls"], jobs=3, workers=10,
+ quick=dict(harnesses=["verifH_C09_ShardedMap_keyed","verifH_C09_ShardedMapOf_keyed","verifH_C09_ShardedMapOf_batch","verifH_C09_ShardedMap_ls"], jobs=4, workers=6,
    l2=["verifL_Failover_1_env:l2","verifL_FailoverOf_1_env:l2"], l2_labels="stored under the key its Get|no key lock remains", l2_jobs=2, l2_par=16),
  thorough=dict(harnesses=["verifH_C09_ShardedMap_keyed","verifH_C09_ShardedMap_batch","verifH_C09_ShardedMap_ls","verifH_C09_ShardedMapOf_keyed","verifH_C09_ShardedMapOf_batch","verifH_C09_ShardedMapOf_ls"], jobs=3, workers=5,
    l2=["verifL_Failover_1_env:l2","verifL_FailoverOf_1_env:l2","verifL_Failover_2_env:l2","verifL_FailoverOf_2_env:l2"], l2_labels="stored under the key its Get|no key lock remains", l2_jobs=2, l2_par=16, l2_timeout=600))
